@@ -336,8 +336,9 @@ func (p *Parser) parseSpecs(specs []srcInput, listener *TreeShapeListener) (*sys
 			return nil, err
 		}
 
-		walker := antlr.NewParseTreeWalker()
-		walker.Walk(listener, tree)
+		if err := walkTree(listener, tree, src.filename); err != nil {
+			return nil, err
+		}
 	}
 
 	listener.lintAppDefs()
@@ -508,10 +509,25 @@ func parseImports(parent importDef, src sourceCtxHelper, input string) ([]import
 		return nil, err
 	}
 
-	walker := antlr.NewParseTreeWalker()
-	walker.Walk(listener, tree)
+	if err := walkTree(listener, tree, parent.filename); err != nil {
+		return nil, err
+	}
 
 	return listener.imports, nil
+}
+
+// walkTree walks the parse tree with the listener. The listener asserts a number of shape and
+// value assumptions by panicking (size specs on types that take none, out-of-range digits,
+// invalid %-escapes, unsupported nesting); such a panic is reported as an error in the file
+// rather than crashing the host process.
+func walkTree(listener *TreeShapeListener, tree antlr.ParseTree, filename string) (err error) {
+	defer func() {
+		if r := recover(); r != nil {
+			err = syslutil.Exitf(ParseError, fmt.Sprintf("%s has errors: %v\n", filename, r))
+		}
+	}()
+	antlr.NewParseTreeWalker().Walk(listener, tree)
+	return nil
 }
 
 // apply attributes from src to dst statement and all of its
